@@ -57,6 +57,13 @@ def build_initial(init: dict) -> bytes:
         out = io.BytesIO()
         D.write_zip(members, out)
         return out.getvalue()
+    if init["deck"] == "genlogo":
+        from mbt.drive import media as MD
+        prs = pptx.Presentation(io.BytesIO(MD.logo_deck({"fmt": "PNG", "bytes": image_bytes(1)})))
+        prs.slides.add_slide(prs.slide_layouts[6])
+        b = io.BytesIO()
+        prs.save(b)
+        return b.getvalue()
     if init["deck"] != "gen":
         with open(init["deck"], "rb") as f:
             return f.read()
@@ -228,7 +235,8 @@ class DeckRun:
                 t = sh.add_table(2, 2, x, y, 800000, 400000).table
                 t.cell(0, 0).text = "cell"
             elif kind == "picture":
-                sh.add_picture(self._image(), x, y)
+                # the model names the image token (field j); histories recorded before it did fall back to the driver's own cycle
+                sh.add_picture(io.BytesIO(image_bytes(a["j"])) if a.get("j") else self._image(), x, y)
             elif kind == "chart":
                 cd = CategoryChartData()
                 cd.categories = ["a", "b", "c"]
